@@ -283,6 +283,7 @@ func runC01OneMessageTargets(c *Ctx) {
 
 func runC01(c *Ctx) {
 	defer runC01BinaryCodecKeepsUnknown(c)
+	defer runC01DecodedCountUsed(c)
 	// clause shared with C20: the message types a schema is decoded with are the schema's own
 	defer c.ImportRules("C20", "C20.4")
 	// clause shared with C09: envelope flag bits are decoded by the client's own protocol
@@ -1216,5 +1217,50 @@ func runC01BinaryCodecKeepsUnknown(c *Ctx) {
 		c.Bad("C01.10", "package", "binary-codec-options", token.NoPos, "no construction of proto.UnmarshalOptions found in the shipped packages: shape changed")
 	} else {
 		c.OK("C01.10", "package", "binary-codec-options", token.NoPos, itoa(n)+" construction(s) of proto.UnmarshalOptions, none sets DiscardUnknown or Merge")
+	}
+}
+
+// runC01DecodedCountUsed: C01.11 (seed C01o).  base64's Decode fills a caller-supplied buffer that
+// was sized with DecodedLen - an upper bound: for padded input it is up to two bytes more than
+// what is written - and returns the number of bytes written.  The decoded value is dst[:n]; using
+// dst whole appends NUL bytes to every bytes field bound from a path or query whose base64 text
+// is padded, and the RPC still succeeds.  Structural, for every call of
+// (*base64.Encoding).Decode / (*base32.Encoding).Decode / hex.Decode in the shipped packages: the
+// count result is used as the upper bound of a slice expression over the destination.
+func runC01DecodedCountUsed(c *Ctx) {
+	p := c.P
+	c.Rule("C01.11", "the buffer a base64/hex Decode filled is cut to the count the decoder returned", 1)
+	n := 0
+	for _, fn := range p.Funcs {
+		if !p.inScope(fn) {
+			continue
+		}
+		for _, ci := range Calls(fn) {
+			call, ok := ci.(*ssa.Call)
+			if !ok || !IsCallTo(call, "(*encoding/base64.Encoding).Decode", "(*encoding/base32.Encoding).Decode", "encoding/hex.Decode") {
+				continue
+			}
+			n++
+			args := call.Call.Args
+			dst := args[len(args)-2]
+			cut := false
+			for _, ref := range *call.Referrers() {
+				ex, ok := ref.(*ssa.Extract)
+				if !ok || ex.Index != 0 || ex.Referrers() == nil {
+					continue
+				}
+				for _, r2 := range *ex.Referrers() {
+					if sl, ok := r2.(*ssa.Slice); ok && sl.High == ssa.Value(ex) && (sl.X == dst || strip(sl.X) == strip(dst)) {
+						cut = true
+					}
+				}
+			}
+			c.Check(cut, "C01.11", FuncName(fn), "decoded-count-cuts-buffer", call.Pos(),
+				"the destination is re-sliced to the returned count",
+				"the count returned by Decode is not used to cut the destination: the buffer was sized with DecodedLen (an upper bound), so padded input leaves trailing NUL bytes in the decoded value and the message arrives altered")
+		}
+	}
+	if n == 0 {
+		c.Trivial("C01.11", "*", "decoded-count-cuts-buffer", token.NoPos, "no Decode into a caller-sized buffer in the shipped packages (DecodeString forms allocate exactly)")
 	}
 }
